@@ -5,7 +5,7 @@
    combination of optional fields, variant tags and list lengths -- exactly under the stated
    conditions, which are equivalences -- hence the output is a well-formed tree ([check_lines]).
    Model: Ddl/DdlExplainModel.v (count code and emit code transcribed separately, as in Go;
-   /repo revision 56672b6cf).  Proofs: Ddl/DdlExplainProof.v.  Tie to the code:
+   /repo revision 472349192).  Proofs: Ddl/DdlExplainProof.v.  Tie to the code:
    /verif/harness/cmd/ddlcount vs /verif/driver/ddlcount on /verif/checks/gen_ddl_cases.py.
 
    Assumed about callees (each such call prints exactly one rooted tree at the given depth):
@@ -25,9 +25,10 @@
           Expression = Elements[0].Expr, nil only for the incomplete `ALTER TABLE t MODIFY TTL`;
         ADD / MODIFY_STATISTICS: a column or a type; DROP / CLEAR / MATERIALIZE_STATISTICS: a
           column -- violated by the incomplete `ALTER TABLE t ADD STATISTICS` (the parser accepts it).
-     inv_alter_shape (needed for the block to be a tree): statistics kinds carry no arguments --
-        VIOLATED BY A VALID STATEMENT: `ALTER TABLE t ADD STATISTICS a TYPE tdigest(5)` prints the
-        argument beside, not beneath, its ExpressionList (C04_alter_statistics_type_function_counts).
+        Nothing else is needed for the block to be a tree (inv_alter = inv_alter_count): statistics
+        kinds with arguments, `ALTER TABLE t ADD STATISTICS a TYPE tdigest(5)`, print their arguments
+        beneath the ExpressionList since /repo 472349192 (found by this model: before that commit
+        they were printed beside it, and the theorem needed the extra condition "no arguments").
      inv_create (header of explainCreateQuery = emitted, an equivalence):
         CREATE FUNCTION: FunctionBody != nil (`children := 2`) -- nil only for the incomplete
           `CREATE FUNCTION f AS`;
@@ -110,9 +111,8 @@ Print Assumptions C04_alter_count_eq_emitted.
 
 Theorem C04_alter_header_eq_direct_children :
   forall (d : nat) (c : alter_command),
-    inv_alter_shape c ->
-    (header_count (explain_alter_command d c) = direct_children (explain_alter_command d c)
-     <-> inv_alter_count c).
+    header_count (explain_alter_command d c) = direct_children (explain_alter_command d c)
+    <-> inv_alter_count c.
 Proof. exact alter_counts_agree_iff. Qed.
 Print Assumptions C04_alter_header_eq_direct_children.
 
@@ -130,29 +130,17 @@ Print Assumptions C04_alter_check_lines.
 (* outside inv_alter_count the printed block is a tree at no depth *)
 Theorem C04_alter_not_tree_outside_condition :
   forall (d : nat) (c : alter_command),
-    inv_alter_shape c -> ~ inv_alter_count c ->
+    ~ inv_alter_count c ->
     forall d' t, nrm (explain_alter_command d c) <> render d' t.
 Proof. exact alter_not_tree. Qed.
 Print Assumptions C04_alter_not_tree_outside_condition.
 
-(* explainStatisticsTypeFunction with arguments, for EVERY non-empty argument list: header 1,
-   1 + len(args) lines directly beneath -- reachable from the valid statement
-   ALTER TABLE t ADD STATISTICS a TYPE tdigest(5) *)
-Theorem C04_alter_statistics_type_function_counts :
+(* statistics kinds, with or without arguments *)
+Theorem C04_alter_statistics_type_function_is_tree :
   forall (d : nat) (f : fn_call),
-    fn_args f <> [] ->
-    header_count (explain_statistics_type_function d f) = 1 /\
-    direct_children (explain_statistics_type_function d f) = 1 + length (fn_args f).
-Proof. exact statistics_type_function_counts. Qed.
-Print Assumptions C04_alter_statistics_type_function_counts.
-
-Theorem C04_alter_statistics_type_arguments_refuted :
-  inv_alter_count w_statistics_type_args /\
-  header_count (explain_alter_command 0 w_statistics_type_args) = 1 /\
-  direct_children (explain_alter_command 0 w_statistics_type_args) = 1 /\
-  check_lines (explain_alter_command 0 w_statistics_type_args) = false.
-Proof. exact alter_statistics_type_arguments_refuted. Qed.
-Print Assumptions C04_alter_statistics_type_arguments_refuted.
+    nrm (explain_statistics_type_function d f) = render d (stat_type_tree f).
+Proof. exact explain_statistics_type_function_tree. Qed.
+Print Assumptions C04_alter_statistics_type_function_is_tree.
 
 Theorem C04_alter_statistics_without_columns_refuted :
   header_count (explain_alter_command 0 w_add_statistics_empty) = 0 /\
@@ -410,7 +398,7 @@ Definition update_command : alter_command :=
      ac_query := None |}.
 
 Example update_command_inv : inv_alter update_command.
-Proof. split; reflexivity. Qed.
+Proof. reflexivity. Qed.
 
 Example update_command_counts :
   header_count (explain_alter_command 2 update_command) = 3 /\
@@ -418,14 +406,20 @@ Example update_command_counts :
   check_lines (explain_alter_command 0 update_command) = true.
 Proof. vm_compute. repeat split. Qed.
 
-(* ALTER TABLE t ADD STATISTICS a, b TYPE tdigest, uniq   (kinds without arguments: a tree) *)
+(* ALTER TABLE t ADD STATISTICS a, b TYPE tdigest(5), uniq *)
 Definition add_statistics_command : alter_command :=
   set_stats (empty_alter AT_AddStatistics) [bytes_of "a"; bytes_of "b"]
-            [ {| fn_name := bytes_of "tdigest"; fn_args := [] |};
+            [ {| fn_name := bytes_of "tdigest"; fn_args := [lit "UInt64_5"] |};
               {| fn_name := bytes_of "uniq"; fn_args := [] |} ].
 
 Example add_statistics_inv : inv_alter add_statistics_command.
-Proof. split; [reflexivity|]. repeat constructor. Qed.
+Proof. reflexivity. Qed.
+
+Example add_statistics_counts :
+  header_count (explain_alter_command 0 add_statistics_command) = 1 /\
+  direct_children (explain_alter_command 0 add_statistics_command) = 1 /\
+  check_lines (explain_alter_command 0 add_statistics_command) = true.
+Proof. vm_compute. repeat split. Qed.
 
 Definition an_alter_query : alter_query :=
   {| aq_database := bytes_of "d"; aq_table := bytes_of "t";
